@@ -3,7 +3,7 @@ operators, comparisons, attribute access, method calls, calls by contract.  DESI
 import ast
 import z3
 from .logic import Arr, _z, INF, sort_of
-from .engine import (Engine, Unsupported, Ref, Tup, RecV, Func, NONE, NoneV, UNDEF, Maybe, Slice,
+from .engine import (Engine, Unsupported, Ref, Tup, RecV, Func, NONE, NoneV, UNDEF, Maybe, Slice, RArr,
                      MaskedSel, Metric, Str, KindTag, Opaque, is_sym, to_z3, to_bool, View)
 
 _OPS = {ast.Add: lambda x, y: x + y, ast.Sub: lambda x, y: x - y, ast.Mult: lambda x, y: x * y}
@@ -81,9 +81,22 @@ class NPMixin:
             raise Unsupported('dict index')
         if isinstance(b, MaskedSel):
             raise Unsupported('subscript of a compressed selection')
+        if is_sym(b) and not isinstance(b, Arr) and (z3.is_real(b) or z3.is_int(b)):
+            ixs = idx.items if isinstance(idx, Tup) else [idx]
+            if all(isinstance(x, NoneV) or type(x).__name__ == 'EllipsisV' or x is Ellipsis for x in ixs):
+                return b        # scalar[..., None]: a NumPy scalar with new axes broadcasts like the scalar itself
         if not isinstance(b, Arr):
             raise Unsupported('subscript of %r' % (b,))
         ix = self.deref(st, idx)
+        if isinstance(ix, Tup) and len(ix.items) == 1 and b.ndim == 1:
+            idx = ix.items[0]              # a[(k,)] is a[k] for a 1-d array (np.where(...) tuples)
+            ix = self.deref(st, idx)
+        if isinstance(ix, Tup) and getattr(ix, 'ix_grid', None) is not None and b.ndim == 2:
+            ra_, ca_ = ix.ix_grid
+            for ar_, dim in ((ra_, 0), (ca_, 1)):
+                jq = z3.Int('j!g')
+                self.emit(self.site('index', node), st, z3.ForAll([jq], z3.Implies(z3.And(jq >= 0, jq < ar_.shape[0]), z3.And(ar_[jq] >= 0, ar_[jq] < b.shape[dim]))))
+            return self.new_obj(st, self.lam(lambda i_, j_: b[ra_[i_], ca_[j_]], (ra_.shape[0], ca_.shape[0]), b.kind))
         if isinstance(ix, Tup):
             return self.subscript_nd(b, ix.items, st, node)
         if isinstance(ix, Slice):
@@ -146,6 +159,14 @@ class NPMixin:
                 raise Unsupported('fancy n-d index')
             else:
                 fixed.append(('i', self.norm_index(x, b.shape[k], st, node)))
+        n_arr = sum(1 for kind, v in fixed if kind == 'a')
+        if n_arr >= 2:
+            # several index arrays are paired element by element (NumPy broadcasting of equal lengths), not an outer product
+            if any(kind == 's' for kind, v in fixed):
+                raise Unsupported('paired index arrays mixed with slices')
+            arrs_ = [v for kind, v in fixed if kind == 'a']
+            self.emit(self.site('shape', node), st, z3.And(*[a_.shape[0] == arrs_[0].shape[0] for a_ in arrs_[1:]]))
+            return self.new_obj(st, self.lam(lambda k_: b[tuple(v if kind == 'i' else v[k_] for kind, v in fixed)], (arrs_[0].shape[0],), b.kind))
         def f(*vs):
             vs = list(vs)
             idx = []
@@ -204,7 +225,18 @@ class NPMixin:
         if not isinstance(arr, Arr):
             raise Unsupported('store into %r' % (arr,))
         ix = self.deref(st, idx)
+        if isinstance(ix, Tup) and len(ix.items) == 1 and arr.ndim == 1:
+            idx = ix.items[0]
+            ix = self.deref(st, idx)
         vv = self.deref(st, v)
+        if isinstance(ix, Arr) and ix.kind == 'bool' and ix.ndim > 1:
+            if ix.ndim != arr.ndim or isinstance(vv, (Arr, MaskedSel)):
+                raise Unsupported('n-d boolean mask store form')
+            self.emit(self.site('shape', node), st, z3.And(*[x == y for x, y in zip(ix.shape, arr.shape)]))
+            new = self.lam(lambda *q: z3.If(ix[tuple(q)], self.num(vv, arr.kind), arr[tuple(q)]), arr.shape, arr.kind)
+            new.meta = arr.meta
+            st.heap[base.oid] = new
+            return st
         if isinstance(ix, Arr) and ix.kind == 'bool':
             self.emit(self.site('shape', node), st, ix.shape[0] == arr.shape[0])
             if isinstance(vv, MaskedSel):
@@ -232,6 +264,21 @@ class NPMixin:
             new.meta = arr.meta
             st.heap[base.oid] = new
             return st
+        if isinstance(ix, Arr) and ix.kind == 'int' and ix.ndim == 1 and arr.ndim == 1 and isinstance(vv, Arr) and vv.ndim == 1:
+            # a[idx] = values : cell idx[k] receives values[k]; with repeated indices the last write wins (NumPy)
+            jq, kq, iq = self.L.var('q'), self.L.var('q'), self.L.var('q')
+            self.emit(self.site('index', node), st, z3.ForAll([jq], z3.Implies(z3.And(jq >= 0, jq < ix.shape[0]), z3.And(ix[jq] >= 0, ix[jq] < arr.shape[0]))))
+            self.emit(self.site('shape', node), st, vv.shape[0] == ix.shape[0])
+            new = Arr(self.fresh('fstore', self.arr_sort(arr.kind)), arr.shape, arr.kind, arr.init, arr.meta)
+            inr = z3.And(jq >= 0, jq < ix.shape[0])
+            if ix.meta.get('distinct'):
+                st.pc.append(z3.ForAll([jq], z3.Implies(inr, new[ix[jq]] == self.num(vv[jq], arr.kind))))
+            else:
+                later = z3.ForAll([kq], z3.Implies(z3.And(kq > jq, kq < ix.shape[0]), ix[kq] != ix[jq]))
+                st.pc.append(z3.ForAll([jq], z3.Implies(z3.And(inr, later), new[ix[jq]] == self.num(vv[jq], arr.kind))))
+            st.pc.append(z3.ForAll([iq], z3.Implies(z3.And(iq >= 0, iq < arr.shape[0], z3.Not(self.L.member(ix, iq))), new[iq] == arr[iq])))
+            st.heap[base.oid] = new
+            return st
         if isinstance(ix, Arr) and ix.kind == 'int':
             raise Unsupported('fancy-index store of an array value')
         if isinstance(ix, Slice):
@@ -251,6 +298,33 @@ class NPMixin:
                 new.init = z3.Lambda([i0], z3.Or(z3.And(lo <= i0, i0 < hi), arr.init[i0]))
             st.heap[base.oid] = new
             return st
+        if isinstance(ix, Tup) and getattr(ix, 'ix_grid', None) is not None and arr.ndim == 2:
+            ra_, ca_ = ix.ix_grid
+            if not (ra_.meta.get('arange') and ca_.meta.get('arange') and isinstance(vv, Arr) and vv.ndim == 2):
+                raise Unsupported('np.ix_ store form')
+            self.emit(self.site('shape', node), st, z3.And(vv.shape[0] == ra_.shape[0], vv.shape[1] == ca_.shape[0], ra_.shape[0] <= arr.shape[0], ca_.shape[0] <= arr.shape[1]))
+            new = self.lam(lambda a_, b_: z3.If(z3.And(a_ < ra_.shape[0], b_ < ca_.shape[0]), self.num(vv[a_, b_], arr.kind), arr[a_, b_]), arr.shape, arr.kind)
+            new.meta = arr.meta
+            st.heap[base.oid] = new
+            return st
+        if isinstance(ix, Tup) and arr.ndim == 2 and len(ix.items) == 2 and not isinstance(vv, (Arr, MaskedSel)):
+            its = [self.deref(st, x) for x in ix.items]
+            wm = [getattr(x, 'where_mask', None) if isinstance(x, Tup) else None for x in its]
+            fullsl = [isinstance(x, Slice) and x.lo is None and x.hi is None and x.step is None for x in its]
+            if wm[0] is not None and wm[0].ndim == 1 and fullsl[1]:      # a[np.where(m), :] = v
+                m_ = wm[0]
+                self.emit(self.site('shape', node), st, m_.shape[0] == arr.shape[0])
+                new = self.lam(lambda a_, b_: z3.If(m_[a_], self.num(vv, arr.kind), arr[a_, b_]), arr.shape, arr.kind)
+                new.meta = arr.meta
+                st.heap[base.oid] = new
+                return st
+            if wm[1] is not None and wm[1].ndim == 1 and fullsl[0]:      # a[:, np.where(m)] = v
+                m_ = wm[1]
+                self.emit(self.site('shape', node), st, m_.shape[0] == arr.shape[1])
+                new = self.lam(lambda a_, b_: z3.If(m_[b_], self.num(vv, arr.kind), arr[a_, b_]), arr.shape, arr.kind)
+                new.meta = arr.meta
+                st.heap[base.oid] = new
+                return st
         if isinstance(ix, Tup) and getattr(ix, 'where_mask', None) is not None and arr.ndim == 2:
             # a[np.where(mask)] = v  ==  a[mask] = v
             m = ix.where_mask
@@ -324,6 +398,27 @@ class NPMixin:
                 new.meta = arr.meta
                 st.heap[base.oid] = new
                 return st
+            if arr.ndim == 2 and intarr(items[0]) and intarr(items[1]):
+                # a[r, c] = values : paired index arrays; with a repeated (row, column) pair the last write wins (NumPy)
+                ra_, ca_ = items
+                jq, kq, iq, i2 = self.L.var('q'), self.L.var('q'), self.L.var('q'), self.L.var('q')
+                inr = z3.And(jq >= 0, jq < ra_.shape[0])
+                self.emit(self.site('shape', node), st, ca_.shape[0] == ra_.shape[0])
+                self.emit(self.site('index', node), st, z3.ForAll([jq], z3.Implies(inr, z3.And(ra_[jq] >= 0, ra_[jq] < arr.shape[0], ca_[jq] >= 0, ca_[jq] < arr.shape[1]))))
+                if isinstance(vv, Arr):
+                    self.emit(self.site('shape', node), st, vv.shape[0] == ra_.shape[0])
+                    val = lambda k: self.num(vv[k], arr.kind)
+                elif isinstance(vv, MaskedSel):
+                    raise Unsupported('paired store of a compressed selection')
+                else:
+                    val = lambda k: self.num(vv, arr.kind)
+                new = Arr(self.fresh('pstore', self.arr_sort(arr.kind, 2)), arr.shape, arr.kind, arr.init, arr.meta)
+                later = z3.ForAll([kq], z3.Implies(z3.And(kq > jq, kq < ra_.shape[0]), z3.Or(ra_[kq] != ra_[jq], ca_[kq] != ca_[jq])))
+                hit = z3.Exists([kq], z3.And(kq >= 0, kq < ra_.shape[0], ra_[kq] == iq, ca_[kq] == i2))
+                st.pc.append(z3.ForAll([jq], z3.Implies(z3.And(inr, later), new[ra_[jq], ca_[jq]] == val(jq))))
+                st.pc.append(z3.ForAll([iq, i2], z3.Implies(z3.And(iq >= 0, iq < arr.shape[0], i2 >= 0, i2 < arr.shape[1], z3.Not(hit)), new[iq, i2] == arr[iq, i2])))
+                st.heap[base.oid] = new
+                return st
             raise Unsupported('n-d store form')
         i = self.norm_index(ix, arr.shape[0], st, node)
         if arr.ndim != 1:
@@ -377,8 +472,16 @@ class NPMixin:
             return Str()
         if isinstance(A, Tup) and isinstance(B, Tup) and isinstance(op, ast.Add):
             return Tup(A.items + B.items)
-        if isinstance(A, (MaskedSel,)) or isinstance(B, (MaskedSel,)):
-            raise Unsupported('arithmetic on a compressed selection')
+        if isinstance(A, MaskedSel) or isinstance(B, MaskedSel):
+            sel = A if isinstance(A, MaskedSel) else B
+            oth = B if sel is A else A
+            if isinstance(oth, (Arr, MaskedSel)):
+                if isinstance(oth, MaskedSel) and z3.eq(oth.mask.term, sel.mask.term):
+                    full = self.deref(st, self.arr_binop(op, A.arr, B.arr, st, node))
+                    return MaskedSel(full, sel.mask)
+                raise Unsupported('arithmetic between a compressed selection and another array')
+            full = self.deref(st, self.arr_binop(op, sel.arr if sel is A else oth, oth if sel is A else sel.arr, st, node))
+            return MaskedSel(full, sel.mask)
         if isinstance(A, Arr) or isinstance(B, Arr):
             return self.arr_binop(op, A, B, st, node)
         if isinstance(a, (int, float)) and isinstance(b, (int, float)):
@@ -414,7 +517,9 @@ class NPMixin:
                 return self.nl_mul(x, y)
             return _OPS[t](x, y)
         if t is ast.Div:
-            self.emit(self.site('div', node), st, y != 0)
+            numpy_scalar = z3.is_app(y) and y.decl().name().split('_')[0].rstrip('0123456789') in ('SUM', 'MEAN', 'AXSUM', 'MASKSUM', 'MSQ')
+            if (not numpy_scalar or getattr(self.c, 'strict_div', False)) and not getattr(self.c, 'division_may_raise', False):
+                self.emit(self.site('div', node), st, y != 0)       # Python scalars raise ZeroDivisionError; NumPy reductions do not
             xr = z3.ToReal(x) if z3.is_int(x) else x
             yr = z3.ToReal(y) if z3.is_int(y) else y
             if z3.is_rational_value(yr) or z3.is_int_value(y):
@@ -484,8 +589,8 @@ class NPMixin:
         def g(v, ix):
             x = acc(v, ix) if isinstance(v, Arr) else to_z3(v)
             return self.num(x, kind)
-        if t is ast.Div:
-            # element-wise division: obligation that every divisor is non-zero
+        if t is ast.Div and getattr(self.c, 'strict_div', False):
+            # element-wise division: obligation that every divisor is non-zero (NumPy itself would give inf/nan, not raise)
             if isinstance(B, Arr):
                 vs = [self.L.var('q') for _ in B.shape]
                 self.emit(self.site('div', node), st,
@@ -522,6 +627,15 @@ class NPMixin:
                     # identity with the np.inf singleton: a symbolic float is never *that object*
                     # unless the contract says so via an 'is_inf' flag value
                     r = False
+            elif isinstance(a, KindTag) and isinstance(b, KindTag):
+                r = (a.kind == b.kind and getattr(a, 'cls', None) == getattr(b, 'cls', None))
+            elif (isinstance(a, KindTag) and isinstance(b, Func)) or (isinstance(b, KindTag) and isinstance(a, Func)):
+                kt, fn = (a, b) if isinstance(a, KindTag) else (b, a)
+                cls = getattr(kt, 'cls', None)
+                short = fn.name.replace('method:', '').split('.')[-1]
+                if cls is None or short not in ('ndarray', 'list', 'tuple'):
+                    raise Unsupported('identity comparison of a type with %s' % fn.name)
+                r = (cls == short)
             elif isinstance(a, Ref) and isinstance(b, Ref):
                 r = a.oid == b.oid
             elif isinstance(a, bool) or isinstance(b, bool):
@@ -640,6 +754,9 @@ class NPMixin:
                     if b.ndim == 2:
                         yield st1, self.new_obj(st1, self.lam(lambda i, j: b[j, i], (b.shape[1], b.shape[0]), b.kind)); continue
                 yield st1, Func('method:' + n.attr, bound=base); continue
+            if isinstance(b, Slice) and n.attr in ('start', 'stop', 'step'):
+                v = {'start': b.lo, 'stop': b.hi, 'step': b.step}[n.attr]
+                yield st1, (NONE if v is None else v); continue
             if isinstance(b, RecV):
                 if n.attr in b.fields:
                     yield st1, b.fields[n.attr]; continue
@@ -647,7 +764,7 @@ class NPMixin:
                 if key:
                     yield st1, Func(key, bound=base); continue
                 raise Unsupported('record %s has no attribute %s' % (b.cls, n.attr))
-            if isinstance(b, (Func, Opaque, Str, Tup, MaskedSel, Metric)) or isinstance(b, tuple):
+            if isinstance(b, (Func, Opaque, Str, Tup, MaskedSel, Metric, RArr)) or isinstance(b, tuple) or type(b).__name__ == 'ConcatR':
                 yield st1, Func('method:' + n.attr, bound=base); continue
             if is_sym(b) and b.sort().name() == 'Obj':
                 # opaque object (matrix, mapping, callable...): attributes are uninterpreted functions of it
@@ -705,7 +822,14 @@ class NPMixin:
         if len(n.generators) != 1:
             raise Unsupported('nested comprehension')
         g = n.generators[0]
-        for st1, it in self.eval(g.iter, st):
+        if isinstance(g.iter, ast.Call) and ast.unparse(g.iter.func) == 'range' and len(g.iter.args) == 1:
+            (st0, hi_), = list(self.eval(g.iter.args[0], st))
+            rng = self.lam(lambda i_: i_, (to_z3(hi_),), 'int')
+            rng.meta = {'arange': True}
+            outs_ = [(st0, self.new_obj(st0, rng))]
+        else:
+            outs_ = list(self.eval(g.iter, st))
+        for st1, it in outs_:
             src = self.deref(st1, it)
             if isinstance(src, Tup):
                 # concrete unroll
@@ -718,7 +842,7 @@ class NPMixin:
                     items.append(v)
                 yield stc, Tup(items)
                 continue
-            if not isinstance(src, Arr):
+            if not isinstance(src, (Arr, RArr)):
                 raise Unsupported('comprehension over %r' % (src,))
             if g.ifs:
                 raise Unsupported('filtered comprehension')
@@ -727,17 +851,34 @@ class NPMixin:
                 yield st1, self.new_obj(st1, a)
                 continue
             # point-wise comprehension: evaluate the element expression on a symbolic index
-            i = z3.Int('i!0')
+            # (a fresh name: the element expression may itself build point-wise arrays bound over i!0)
+            i = z3.Int('c!%d' % next(self.fresh_n))
             stc = st1.copy()
-            stc = self.assign(g.target, self.element(src, i, stc), stc)
+            stc.pc = stc.pc + [i >= 0, i < src.shape[0]]
+            n_pc = len(stc.pc)
+            elem0 = self.new_obj(stc, src.row(i)) if isinstance(src, RArr) else self.element(src, i, stc)
+            stc = self.assign(g.target, elem0, stc)
             n_before = len(self.vcs)
-            outs = list(self.eval(n.elt, stc))
+            self.comp_vars = getattr(self, 'comp_vars', []) + [i]      # unknowns created below are skolem functions of i
+            try:
+                outs = list(self.eval(n.elt, stc))
+            finally:
+                self.comp_vars = self.comp_vars[:-1]
             if len(outs) != 1:
                 raise Unsupported('branching comprehension element')
             stc2, v = outs[0]
-            # obligations emitted while evaluating the element mention the bound index i: close them
-            for vc in self.vcs[n_before:]:
-                vc.hyps = list(vc.hyps) + [i >= 0, i < src.shape[0]]
+            # facts learnt while evaluating the element hold for every index of the comprehension
+            newf = stc2.pc[n_pc:]
+            closed = [z3.ForAll([i], z3.Implies(z3.And(i >= 0, i < src.shape[0]), z3.And(*newf)))] if newf else []
+            tname = g.target.id if isinstance(g.target, ast.Name) else 'x'
+            ev = self.deref(stc2, v)
+            if isinstance(ev, Arr):
+                st2 = st1.copy()
+                st2.pc = st1.pc + closed
+                if closed:
+                    st2.facts['comp:' + tname] = closed[0]
+                yield st2, self.new_obj(st2, RArr(ev, i, src.shape[0]))
+                continue
             vz = to_z3(v)
             if not is_sym(vz):
                 raise Unsupported('comprehension element value')
@@ -747,7 +888,9 @@ class NPMixin:
                 kind = str(vz.sort()).lower()
             a = Arr(z3.Lambda([i], vz), (src.shape[0],), kind, meta={'list': True})
             st2 = st1.copy()
-            st2.pc = stc2.pc
+            st2.pc = st1.pc + closed
+            if closed:
+                st2.facts['comp:' + tname] = closed[0]
             yield st2, self.new_obj(st2, a)
 
     # ------------------------------------------------------------ calls
